@@ -1,6 +1,5 @@
 import YakModel.Proto.NodeSet
 import YakModel.Proofs.NodeSetProofs
-import YakModel.Proofs.NodeSetWitness
 /-!
 # C06 — A concurrent insert is seen by the scan or invalidates its node-version set
 
@@ -74,8 +73,7 @@ def missedRun : List Event :=
 /-- the scan returned `[2]` with the pair `(leaf 0, vins 1, vsplit 0)`; the later insert of 3 has
     completed, is not in the result, and leaf 0 now has `vins = 2`: the pair is stale. -/
 example : (exec ⟨3⟩ init missedRun).map (fun s => (s.sc 0, s.completed, s.chain)) =
-    some (.fin 1 4 [2] [(0, 1, 0)], [3, 2], [⟨0, 0, [2, 3], 2, 0, false, false⟩]) := by
-  rw [show exec ⟨3⟩ init missedRun = some Witness.mis11 from Witness.mis_exec]; rfl
+    some (.fin 1 4 [2] [(0, 1, 0)], [3, 2], [⟨0, 0, [2, 3], 2, 0, false, false⟩]) := by decide
 
 /-- four inserts (the fourth finds leaf 0 full at capacity 3 and splits it), then a scan of [1, 6]
     that walks both leaves while nothing else runs. -/
@@ -85,17 +83,11 @@ def exactRun : List Event :=
    .sStart 0 1 6, .sEnter 0 0, .sLoadVer 0, .sSnapshot 0, .sValidate 0,
    .sLoadVer 0, .sSnapshot 0, .sValidate 0]
 
-/-- `exactRun`, one `rfl` per event with literal intermediate states
-    (`YakModel/Proofs/NodeSetWitness.lean`) instead of a whole-run evaluation in the kernel -/
-private theorem exactRun_exec : exec ⟨3⟩ init exactRun = some Witness.exa21 :=
-  Witness.exec_append Witness.pre_exec Witness.exa_exec
-
 /-- both leaves are collected with their current counters and the result is exactly the stored
     keys of the interval. -/
 example : (exec ⟨3⟩ init exactRun).map (fun s => (s.sc 0, s.chain)) =
     some (.fin 1 6 [1, 3, 4, 5] [(0, 4, 1), (1, 4, 1)],
-      [⟨0, 0, [1, 3, 4], 4, 1, false, false⟩, ⟨1, 5, [5], 4, 1, false, false⟩]) := by
-  rw [exactRun_exec]; rfl
+      [⟨0, 0, [1, 3, 4], 4, 1, false, false⟩, ⟨1, 5, [5], 4, 1, false, false⟩]) := by decide
 
 /-- a scan overtaken by a split: the scanner has collected leaf 0 (the only leaf), then an insert
     of 6 splits it. -/
@@ -105,33 +97,48 @@ def splitRun : List Event :=
    .sStart 0 1 6, .sEnter 0 0, .sLoadVer 0, .sSnapshot 0, .sValidate 0,
    .wLock 1 6 0, .wSplit 1, .wUnlockL 1, .wUnlockR 1]
 
-private theorem splitRun_exec : exec ⟨3⟩ init splitRun = some Witness.spl18 :=
-  Witness.exec_append Witness.pre_exec Witness.spl_exec
-
 /-- the result `[1, 3, 5]` misses the completed insert of 6, which went into the new leaf 1 that
     was never collected; the collected pair of leaf 0 says `vsplit 0`, the leaf now has
     `vsplit 1`. -/
 example : (exec ⟨3⟩ init splitRun).map (fun s => (s.sc 0, s.completed, s.chain)) =
     some (.fin 1 6 [1, 3, 5] [(0, 3, 0)], [6, 5, 3, 1],
-      [⟨0, 0, [1, 3], 4, 1, false, false⟩, ⟨1, 5, [5, 6], 4, 1, false, false⟩]) := by
-  rw [splitRun_exec]; rfl
+      [⟨0, 0, [1, 3], 4, 1, false, false⟩, ⟨1, 5, [5, 6], 4, 1, false, false⟩]) := by decide
 
 /-- the hypotheses of `scan_insert_seen_or_stale` are satisfiable with the key absent from the
     result: the `Stale` disjunct cannot be dropped. -/
 theorem stale_disjunct_needed : ∃ s, Reach ⟨3⟩ s ∧ ∃ keys nodes,
     s.sc 0 = .fin 1 6 keys nodes ∧ 6 ∈ s.completed ∧ 6 ∉ keys := by
-  exact ⟨Witness.spl18, reach_exec Reach.init _ splitRun_exec, [1, 3, 5], [(0, 3, 0)], rfl,
-    by decide, by decide⟩
+  cases h : exec ⟨3⟩ init splitRun with
+  | none =>
+    have : (exec ⟨3⟩ init splitRun).isSome = true := by decide
+    rw [h] at this; cases this
+  | some s =>
+    have hv : (exec ⟨3⟩ init splitRun).map (fun s => (s.sc 0, s.completed)) =
+        some (.fin 1 6 [1, 3, 5] [(0, 3, 0)], [6, 5, 3, 1]) := by decide
+    rw [h] at hv
+    simp only [Option.map_some, Option.some.injEq, Prod.mk.injEq] at hv
+    exact ⟨s, reach_exec Reach.init _ h, [1, 3, 5], [(0, 3, 0)], hv.1, by rw [hv.2]; decide, by decide⟩
 
 /-- the hypotheses of `validated_scan_is_exact` are satisfiable by a scan that collected two
     leaves. -/
 theorem exact_hypotheses_satisfiable : ∃ s, Reach ⟨3⟩ s ∧ ∃ keys nodes,
     s.sc 0 = .fin 1 6 keys nodes ∧ nodes.length = 2 ∧ ¬ Stale s nodes ∧
     (∀ r ∈ nodes, ∀ L ∈ s.chain, L.id = r.1 → L.dirty = false) := by
-  refine ⟨Witness.exa21, reach_exec Reach.init _ exactRun_exec, [1, 3, 4, 5], [(0, 4, 1), (1, 4, 1)],
-    rfl, rfl, ?_, ?_⟩
-  · unfold Stale
-    decide
-  · decide
+  cases h : exec ⟨3⟩ init exactRun with
+  | none =>
+    have : (exec ⟨3⟩ init exactRun).isSome = true := by decide
+    rw [h] at this; cases this
+  | some s =>
+    have hv : (exec ⟨3⟩ init exactRun).map (fun s => (s.sc 0, s.chain)) =
+        some (.fin 1 6 [1, 3, 4, 5] [(0, 4, 1), (1, 4, 1)],
+          [⟨0, 0, [1, 3, 4], 4, 1, false, false⟩, ⟨1, 5, [5], 4, 1, false, false⟩]) := by decide
+    rw [h] at hv
+    simp only [Option.map_some, Option.some.injEq, Prod.mk.injEq] at hv
+    refine ⟨s, reach_exec Reach.init _ h, [1, 3, 4, 5], [(0, 4, 1), (1, 4, 1)], hv.1, rfl, ?_, ?_⟩
+    · unfold Stale
+      rw [hv.2]
+      decide
+    · rw [hv.2]
+      decide
 
 end Yak.Props.C06
